@@ -453,13 +453,25 @@ theorem rdf_meta_normalised_roundtrip (md : List (Str × Str × List Str))
       normMeta (md.map fun kv => (kv.1, kv.2.1 :: kv.2.2)) :=
   rdf_meta_norm_roundtrip md hwf hnd
 
-/-- the same on the decidable domain of the specification (`rdMetaOk`: printable, no line begins with `$`) -/
+/-- the same on the decidable domain of the specification (`rdMetaOk`: printable, no line begins with `$`); and no
+    written data line is taken for a record marker, so the record still ends where the next `$RFMT`/`$MFMT` begins -/
 theorem rdf_meta_spec_roundtrip (md : List (Str × Str × List Str))
     (h : rdMetaOk (md.map fun kv => (kv.1, kv.2.1 :: kv.2.2)) = true) :
     rdfReadMeta (splitLinesKeep ((md.map fun kv => rdfMetaChunk (kv.1, joinWith ['\n'] (kv.2.1 :: kv.2.2))).flatten)) =
-      normMeta (md.map fun kv => (kv.1, kv.2.1 :: kv.2.2)) := by
+      normMeta (md.map fun kv => (kv.1, kv.2.1 :: kv.2.2)) ∧
+    ∀ l ∈ (md.map fun kv => rdfChunkLines kv.1 (kv.2.1 :: kv.2.2)).flatten, isFmt l = false := by
   obtain ⟨h1, h2⟩ := rdMeta_of_spec md h
-  exact rdf_meta_norm_roundtrip md h1 h2
+  refine ⟨rdf_meta_norm_roundtrip md h1 h2, ?_⟩
+  intro l hl
+  simp only [List.mem_flatten, List.mem_map] at hl
+  obtain ⟨ls, ⟨kv, hkv, rfl⟩, hl⟩ := hl
+  refine rdfChunkLines_noFmt kv.1 kv.2.1 kv.2.2 (fun x hx => ?_) l hl
+  unfold rdMetaOk at h
+  simp only [Bool.and_eq_true, List.all_eq_true] at h
+  have := (h.1 (kv.1, kv.2.1 :: kv.2.2) (List.mem_map_of_mem (f := fun kv => (kv.1, kv.2.1 :: kv.2.2)) hkv)).2 x (by simp [hx])
+  unfold rdDataLineOk at this
+  simp only [Bool.and_eq_true, Bool.not_eq_true'] at this
+  exact this.2
 
 example : rdMetaOk ([(sL " yield ", sL "  ", [sL " 95 % ", sL "", sL "M  END > <"])].map
     fun kv => (kv.1, kv.2.1 :: kv.2.2)) = true := by decide +kernel
